@@ -244,6 +244,9 @@ pub fn run(ctx: &Ctx) -> i32 {
     // Long executions: no counter inside the debugger may limit how long a program can run.
     // (a) 196 613 instructions with 65 536 unpaired calls; (b, thorough) 2^32 + 229 381 instructions.
     let mut long: Vec<(&str, String, Vec<&str>, u64)> = vec![("65536-linking-jumps", linking_jumps().text, vec!["step;quit", "step", "continue;quit", "step out;step;quit", "step into 60000;step;continue"], 60)];
+    // amounts of output: 65 536 characters printed one by one, and one string of 30 000 characters
+    long.push(("prints-65536-characters", ".orig x3000\n ld r1, cnt\n ld r0, ch\nloop out\n add r1, r1, #-1\n brnp loop\n halt\ncnt .fill x0\nch .fill x41\n.end\n".to_string(), vec!["continue", "step into 60000;continue;quit", "break add loop;continue;continue;break remove loop;continue"], 60));
+    long.push(("prints-a-30000-character-string", format!(".orig x3000\n lea r0, msg\n puts\n halt\nmsg .stringz \"{}\"\n.end\n", "0123456789abcde\\n".repeat(1875)), vec!["continue", "step;step;continue", "step into 2;quit"], 60));
     if thorough {
         long.push(("more-than-2^32-instructions", COUNT_OVERFLOW.to_string(), vec!["continue;quit", "step into 60000;continue"], 1500));
     }
@@ -273,7 +276,7 @@ pub fn run(ctx: &Ctx) -> i32 {
         ctx,
         acc,
         Level { category: "model_checking", bfs: Some((stats.states, stats.transitions, stats.transitions * if thorough { 4 } else { 3 }, stats.max_depth)) },
-        "explicit-state BFS over histories of non-mutating commands (step, step into {1,3}, step out, continue, break add/remove absolute and ^1, break list, print register / ^ / xFFFF, registers, assembly, echo, help) on 14 programs (loop, leaving user space through a bare RET / a branch below the origin / a jump to xFFFF, branches, nested JSR/RET, recursive CALL/RETS, HALT in the middle, JSRR + self-branch, self-modifying with output, overwriting a placeholder HALT before reaching it, `.break` in the source with output, running off the end, ending in an exception, executing an unknown trap). Every transition runs history+`quit` and history+end-of-input (also in non-minimal mode: up to depth 3 in the quick tier, everywhere in the thorough tier) on the real debugger and compares how the run ends, the final registers/PC/CC/all memory and the program output with the same image run without a debugger; states deduplicated on the paused product digest. Plus every history up to depth 3 (quick: last level stride 6) through the real binary: exit status and stdout of `lace debug --minimal --command` vs `lace run --minimal`. Plus long executions through the real binary (5 scripts on a subroutine with 65 536 unpaired calls; thorough: 2 scripts on a program of 2^32 + 229 381 instructions), which drive the debugger's own counters past their widths. non-trivial = agreeing transitions / CLI histories",
+        "explicit-state BFS over histories of non-mutating commands (step, step into {1,3}, step out, continue, break add/remove absolute and ^1, break list, print register / ^ / xFFFF, registers, assembly, echo, help) on 14 programs (loop, leaving user space through a bare RET / a branch below the origin / a jump to xFFFF, branches, nested JSR/RET, recursive CALL/RETS, HALT in the middle, JSRR + self-branch, self-modifying with output, overwriting a placeholder HALT before reaching it, `.break` in the source with output, running off the end, ending in an exception, executing an unknown trap). Every transition runs history+`quit` and history+end-of-input (also in non-minimal mode: up to depth 3 in the quick tier, everywhere in the thorough tier) on the real debugger and compares how the run ends, the final registers/PC/CC/all memory and the program output with the same image run without a debugger; states deduplicated on the paused product digest. Plus every history up to depth 3 (quick: last level stride 6) through the real binary: exit status and stdout of `lace debug --minimal --command` vs `lace run --minimal`. Plus long executions through the real binary (5 scripts on a subroutine with 65 536 unpaired calls; 3 scripts each on a program printing 65 536 characters one by one and on one printing a string of 30 000 characters; thorough: 2 scripts on a program of 2^32 + 229 381 instructions), which drive the debugger's own counters past their widths. non-trivial = agreeing transitions / CLI histories",
         !stats.capped,
         &["program-ends-normally", "program-ends-in-error-exit", "program-prints", "cli-status-0", "cli-status-nonzero"],
         &["differential oracle: the real VM without debugger", "HALT's own banner is printed with println! and is compared through the CLI part only"],
